@@ -42,6 +42,25 @@ def batom(tag, *args):
   return Rat(Poly.sym(atom_key('bool', (tag,) + tuple(args), (tag,) + tuple(avn.keyof(a) for a in args))))
 
 
+PS_FIELDS = ('q', 'qd', 'x', 'xd', 'mass_mx')
+
+
+def mkps(q):
+  """The scripted pipeline state: coordinates (q, qd, x, xd) and one field a backend DERIVES from them (mass_mx), all
+  determined by q -- a wrapper that restores only some fields of the first state leaves the others stale."""
+  q = asarr(q)
+  f = {'q': q}
+  for k in PS_FIELDS[1:]:
+    f[k] = np.array([uf('ps_' + k, v) for v in q.ravel()], dtype=object).reshape(q.shape)
+  f['contact'] = None
+  return Struct('PS', f)
+
+
+def same_ps(got, want_of):
+  """got.<field> == want_of(field) for every field of the scripted pipeline state."""
+  return all(k in got.f and same(got.f[k], want_of(k)) for k in PS_FIELDS)
+
+
 class Script:
   """Scripted symbolic environment: everything the inner env returns is an uninterpreted function
   of (previous observation, action)."""
@@ -54,7 +73,7 @@ class Script:
   def reset(self, rng):
     rng = asarr(rng)
     obs = np.array([uf('obs0', rng, i) for i in range(2)], dtype=object)
-    ps = Struct('PS', {'q': np.array([uf('ps0', rng, i) for i in range(3)], dtype=object)})
+    ps = mkps(np.array([uf('ps0', rng, i) for i in range(3)], dtype=object))
     # the Env interface does not promise a zero reward or zero metrics at reset (an env may report its initial height, ...)
     return self.I.apply(self.State, [], dict(pipeline_state=ps, obs=obs, reward=uf('rew0', rng), done=Rat.lift(0),
                                              metrics={'m': uf('metric0', rng)}, info={}))
@@ -62,7 +81,7 @@ class Script:
   def step(self, state, action):
     o, a = state.f['obs'], asarr(action)
     obs = np.array([uf('obs', o, a, i) for i in range(2)], dtype=object)
-    ps = Struct('PS', {'q': np.array([uf('ps', state.f['pipeline_state'].f['q'], a, i) for i in range(3)], dtype=object)})
+    ps = mkps(np.array([uf('ps', state.f['pipeline_state'].f['q'], a, i) for i in range(3)], dtype=object))
     m = dict(state.f['metrics'])
     m['m'] = uf('metric', o, a)
     return Struct(state.cls, dict(state.f, pipeline_state=ps, obs=obs, reward=uf('rew', o, a), done=batom('term', o, a),
@@ -143,7 +162,7 @@ def autoreset_wrapper(U, rep, tier):
     dprev = batom('prevdone')
     cur = clone(s0)
     cur.f['obs'] = symarr('o', (2,))
-    cur.f['pipeline_state'] = Struct('PS', {'q': symarr('p', (3,))})
+    cur.f['pipeline_state'] = mkps(symarr('p', (3,)))
     cur.f['done'] = dprev
     if with_steps:
       cur.f['info']['steps'] = sym('steps')
@@ -165,8 +184,9 @@ def autoreset_wrapper(U, rep, tier):
               'the inner step does not see done = 0 and steps = (done ? 0 : steps)', where=f.where(),
               construct='steps := done ? 0 : steps; done := 0')
     want_obs = where(d, s0.f['obs'], nxt.f['obs'])
-    want_ps = where(d, s0.f['pipeline_state'].f['q'], nxt.f['pipeline_state'].f['q'])
-    rep.check(same(out.f['obs'], want_obs) and same(out.f['pipeline_state'].f['q'], want_ps) and same(out.f['done'], d)
+    # every field of the pipeline state, the derived ones included (round 11: only the coordinates were restored)
+    want_ps = lambda k: where(d, s0.f['pipeline_state'].f[k], nxt.f['pipeline_state'].f[k])
+    rep.check(same(out.f['obs'], want_obs) and same_ps(out.f['pipeline_state'], want_ps) and same(out.f['done'], d)
               and same(out.f['reward'], nxt.f['reward']), 'R15.2',
               'AutoResetWrapper.step restores the reset snapshot exactly when done (steps in info: %s)' % with_steps,
               lambda: 'after an episode end the next obs / pipeline state are not the ones from reset: ' + diff_report(out.f['obs'], want_obs),
@@ -205,14 +225,14 @@ def autoreset_nonfinite(U, rep):
   s0 = I.apply(I.attr(w, 'reset'), [symarr('key', (2,))], {})
   cur = clone(s0)
   cur.f['obs'] = symarr('o', (2,))
-  cur.f['pipeline_state'] = Struct('PS', {'q': symarr('p', (3,))})
+  cur.f['pipeline_state'] = mkps(symarr('p', (3,)))
   cur.f['done'] = Rat.lift(0)
   inf = Rat.lift(float('inf'))
 
   def ending_step(state, action):
     st = S.step(state, action)
     return Struct(st.cls, dict(st.f, done=Rat.lift(1), obs=np.array([inf, st.f['obs'][1]], dtype=object),
-                               pipeline_state=Struct('PS', {'q': np.array([st.f['pipeline_state'].f['q'][0], inf, inf], dtype=object)})), home=st.home)
+                               pipeline_state=mkps(np.array([st.f['pipeline_state'].f['q'][0], inf, inf], dtype=object))), home=st.home)
   w.f['env'].f['step'] = ('prim', 'step', ending_step)
   out = I.apply(I.attr(w, 'step'), [clone(cur), symarr('act', (2,))], {})
   ok = same(out.f['obs'], s0.f['obs']) and same(out.f['pipeline_state'].f['q'], s0.f['pipeline_state'].f['q'])
@@ -231,7 +251,7 @@ def autoreset_dict_obs(U, rep):
   s0 = I.apply(I.attr(w, 'reset'), [symarr('key', (2,))], {})
   cur = clone(s0)
   cur.f['obs'] = {'state': symarr('o', (2,)), 'aux': symarr('x', (2,))}
-  cur.f['pipeline_state'] = Struct('PS', {'q': symarr('p', (3,))})
+  cur.f['pipeline_state'] = mkps(symarr('p', (3,)))
   # the `aux` leaf is an INTEGER array (a tick counter, a discrete observation): restored like any other leaf
   for arr in (s0.f['obs']['aux'], cur.f['obs']['aux'], s0.f['info']['first_obs']['aux']):
     I.dtypes[id(arr)] = ('int', arr)
@@ -324,7 +344,7 @@ def composite(U, rep, tier):
         tr = where(g, 1 - ref.f['done'], 0)
         obs = where(d, first.f['obs'], ref.f['obs'])
         ps = where(d, first.f['pipeline_state'].f['q'], ref.f['pipeline_state'].f['q'])
-        cur = Struct(ref.cls, dict(ref.f, obs=obs, pipeline_state=Struct('PS', {'q': ps})), home=ref.home)
+        cur = Struct(ref.cls, dict(ref.f, obs=obs, pipeline_state=mkps(ps)), home=ref.home)
         outs.append(dict(reward=rew, done=d, trunc=tr, steps=steps, obs=obs, ps=ps))
         done_prev = d
       for t, (got, want) in enumerate(zip((s1, s2), outs)):
